@@ -447,17 +447,21 @@ def check_expectations_read_the_response(rep, http, cfg):
     for f in http.built:
         if f.kind != 'AssocFn' or f.name != 'decode' or not path_matches(f.assoc.get('trait'), 'crux_http::expect::ResponseExpectation') or f.j.get('exp'):
             continue
-        reads = [(bb, t) for bb, t in f.calls() if re.search(r'::response::response::Response::(body_json|body_string|body_bytes|take_body)$', norm(t.get('callee') or ''))]
+        # the family of decode: its body and its closures, those of helpers spliced in included (`decode_with(resp, |resp| resp.body_string())`)
+        from rules.props import prims as _prims
+        fam = [f] + http.closures_of(f)
+        reads = [(g, bb, t) for g in fam for bb, t in g.calls()
+                 if re.search(r'::response::response::Response::(body_json|body_string|body_bytes|take_body)$', norm(t.get('callee') or ''))]
         if not reads:
             continue
         n += 1
         bad = []
-        for bb, t in reads:
-            src = origins(f, t['args'][0])
-            if not src or not all(o.kind == 'arg' and o.n == 2 for o in src):
-                bad.append((last_seg(t['callee']), [(o.kind, last_seg(o.term.get('callee') or '') if o.kind == 'call' else '') for o in src]))
+        for g, bb, t in reads:
+            tr = _prims.trace_to_root(http, g, t['args'][0], f)
+            if not tr or not all(h is f and o.kind == 'arg' and o.n == 2 for h, o in tr):
+                bad.append((last_seg(t['callee']), [(o.kind, last_seg(o.term.get('callee') or '') if o.kind == 'call' else '') for h, o in tr]))
         subst = [f.where(bb) for bb, t in f.calls() if re.search(r'::response::response::Response::(with_body|set_body|replace_body|swap_body)$', norm(t.get('callee') or ''))
-                 and any(f.dominates(bb, rb) and bb != rb for rb, _ in reads)]
+                 and any(g is f and f.dominates(bb, rb) and bb != rb for g, rb, _ in reads)]
         key = '%s|reads-the-response' % f.kpath
         rep.expect('R15.j', not bad and not subst, key, 'the body read is the body of the response given to decode', '%s decodes a body other than the one the '
                    'response carries (%s%s): the app can get a success built from bytes the shell never sent' % (f.path, bad, (' after ' + subst[0]) if subst else ''),
